@@ -156,14 +156,16 @@ C40EOD(p, b, s0) ==
   IN IF s = 0 THEN Fail
      ELSE LET avail == s - cur IN
           IF rest = 2 THEN Ret(p, cw \o Triplets(Append(b, 0)) \o (IF HasMore(p) THEN <<254>> ELSE <<>>), ASCII, s)
-          ELSE IF avail = 1 /\ rest = 1 THEN Ret(p - 1, cw \o Triplets(b) \o (IF HasMore(p) THEN <<254>> ELSE <<>>), ASCII, s)
+          ELSE IF avail = 1 /\ rest = 1      \* the last character goes to ASCII; without unlatch only if it takes the one codeword left
+               THEN Ret(p - 1, cw \o Triplets(b) \o (IF HasMore(p) \/ IsExt(msg[p]) THEN <<254>> ELSE <<>>), ASCII, s)
           ELSE IF rest = 0 THEN Ret(p, cw \o Triplets(b) \o (IF avail > 0 \/ HasMore(p) THEN <<254>> ELSE <<>>), ASCII, s)
           ELSE Fail                                             \* "Unexpected case"
 RECURSIVE Back1(_,_,_,_,_)
 Back1(p, b, ls, avail, first) ==  \* the backtracking at the end of data as the code does it: <<p, b, panic>>
   IF (first /\ Len(b) % 3 = 2 /\ avail # 2) \/ (Len(b) % 3 = 1 /\ (ls > 3 \/ avail # 1))
   THEN IF Len(b) - ls < 0 \/ p - 1 < 0 THEN <<p, b, TRUE>>
-       ELSE Back1(p - 1, SubSeq(b, 1, Len(b) - ls), Len(C40Char(msg[p], mode = TEXT)), avail, FALSE)
+       ELSE LET b2 == SubSeq(b, 1, Len(b) - ls) IN      \* the next step removes the character that is now last in the buffer
+            Back1(p - 1, b2, IF Len(b2) > 0 /\ p - 1 >= 1 THEN Len(C40Char(msg[p-1], mode = TEXT)) ELSE 0, avail, FALSE)
   ELSE <<p, b, FALSE>>
 C40Iter ==
   /\ pc = "loop" /\ mode \in {C40, TEXT}
